@@ -361,7 +361,7 @@ def tab10(units, R):
             return (strip_casts(e['b'])['d'], strip_casts(e['i'])['d'], field)
         return None
 
-    def column(tab_d, field):
+    def column(tab_d, field, want=None):
         """the cells of one column of a table (the table itself when it is an array of scalars)"""
         rows = tables[tab_d]
         if field is None:
@@ -376,8 +376,18 @@ def tab10(units, R):
                 if any(f['n'] == field for f in rr['fields']) and len(rr['fields']) == len(r['inits']):
                     rec = rr
             if rec is None:
-                return None
-            pos = [i for i, f in enumerate(rec['fields']) if f['n'] == field][0]
+                # a record declared inside the function (not in the unit's record table): the column is the one position that holds
+                # what is wanted in every row - string literals for the names, enumeration constants for the opcodes
+                kinds = {'str': lambda c_: c_.get('k') == 'str', 'enum': lambda c_: c_.get('k') == 'ref' and c_.get('dk') == 'enumc'}
+                if want not in kinds or any(rw.get('k') != 'initlist' for rw in rows):
+                    return None
+                width = len(r['inits'])
+                cand = [i for i in range(width) if all(len(rw['inits']) == width and kinds[want](strip_casts(rw['inits'][i])) for rw in rows)]
+                if len(cand) != 1:
+                    return None
+                pos = cand[0]
+            else:
+                pos = [i for i, f in enumerate(rec['fields']) if f['n'] == field][0]
             out.append(strip_casts(r['inits'][pos]))
         return out
 
@@ -442,7 +452,7 @@ def tab10(units, R):
             if len(name_tabs) != 1:
                 raise AnalysisBroken('TAB10: %s: several name tables' % fn.where(r.expr))
             nt = name_tabs.pop()
-            names_t, ops_t = column(nt[0], nt[1]), column(tab_d, ret_field)
+            names_t, ops_t = column(nt[0], nt[1], 'str'), column(tab_d, ret_field, 'enum')
             if names_t is None or ops_t is None:
                 raise AnalysisBroken('TAB10: %s: table columns cannot be read' % fn.where(r.expr))
             if len(names_t) != len(ops_t):
